@@ -988,7 +988,9 @@ func Run(c *fw.Ctx) {
 		} else {
 			cs.Cover(fmt.Sprintf("pivot-directed:%s/n=%d", la.CycleClass(p), len(p)))
 		}
-		cs.Sample(map[string]any{"perm": p, "type": t.Name, "A": A.Rows()})
+		if sampleWorthy(map[string]any{"perm": p, "type": t.Name, "A": A.Rows()}) {
+			cs.Sample(map[string]any{"perm": p, "type": t.Name, "A": A.Rows()})
+		}
 		if routine == 0 {
 			inverseCase(cs, t, "permuted-dominant", A, invOpts{}, nil, "")
 		} else {
@@ -1039,7 +1041,9 @@ func Run(c *fw.Ctx) {
 				failedBefore = true
 			}
 			if call == 0 {
-				cs.Sample(map[string]any{"type": t.Name, "structure": structure, "opts": o.String(), "mask": maskString(o.Mask), "A": A.Rows()})
+				if sampleWorthy(map[string]any{"type": t.Name, "structure": structure, "opts": o.String(), "mask": maskString(o.Mask), "A": A.Rows()}) {
+					cs.Sample(map[string]any{"type": t.Name, "structure": structure, "opts": o.String(), "mask": maskString(o.Mask), "A": A.Rows()})
+				}
 			}
 			callClass := ""
 			if is != nil {
@@ -1068,7 +1072,9 @@ func Run(c *fw.Ctx) {
 		}
 		rhs := []string{"random", "random", "unit", "zero"}[r.Intn(4)]
 		A := genMatrix(structure, n, t, r)
-		cs.Sample(map[string]any{"type": t.Name, "structure": structure, "upperTriangular": ut, "mask": maskString(mask), "rhs": rhs, "A": A.Rows()})
+		if sampleWorthy(map[string]any{"type": t.Name, "structure": structure, "upperTriangular": ut, "mask": maskString(mask), "rhs": rhs, "A": A.Rows()}) {
+			cs.Sample(map[string]any{"type": t.Name, "structure": structure, "upperTriangular": ut, "mask": maskString(mask), "rhs": rhs, "A": A.Rows()})
+		}
 		gjCase(cs, t, structure, A, ut, mask, rhs)
 	})
 
@@ -1110,7 +1116,9 @@ func Run(c *fw.Ctx) {
 			cs.Cover("opts:backSubstitution/" + mode)
 			cs.Cover("rhs:" + rhs)
 			if call == 0 {
-				cs.Sample(map[string]any{"type": t.Name, "mode": mode, "R": R.Rows(), "b": b})
+				if sampleWorthy(map[string]any{"type": t.Name, "mode": mode, "R": R.Rows(), "b": b}) {
+					cs.Sample(map[string]any{"type": t.Name, "mode": mode, "R": R.Rows(), "b": b})
+				}
 			}
 			x, out := backsubCall(t, R, b, is)
 			rb := b
@@ -1192,7 +1200,9 @@ func Run(c *fw.Ctx) {
 			cs.Cover("opts:determinant/" + o.String())
 			cs.Cover("structure:" + structure)
 			if call == 0 {
-				cs.Sample(map[string]any{"type": t.Name, "structure": structure, "opts": o.String(), "A": A.Rows()})
+				if sampleWorthy(map[string]any{"type": t.Name, "structure": structure, "opts": o.String(), "A": A.Rows()}) {
+					cs.Sample(map[string]any{"type": t.Name, "structure": structure, "opts": o.String(), "A": A.Rows()})
+				}
 			}
 			d, out := detCall(t, A, o, is)
 			v := checkDet(cs, t, A, o, d, out)
@@ -1274,7 +1284,9 @@ func Run(c *fw.Ctx) {
 			opts := o.String()
 			cs.Cover("call:matrixInverse/" + t.Name + "/singular")
 			cs.Cover("singular:" + routine + "/" + o.path() + "/" + sk)
-			cs.Sample(map[string]any{"routine": routine, "type": t.Name, "kind": sk, "opts": opts, "A": S.Rows()})
+			if sampleWorthy(map[string]any{"routine": routine, "type": t.Name, "kind": sk, "opts": opts, "A": S.Rows()}) {
+				cs.Sample(map[string]any{"routine": routine, "type": t.Name, "kind": sk, "opts": opts, "A": S.Rows()})
+			}
 			X, out := callInverse(t, S, o, newInvInSitu(o.InSitu, t, S.R))
 			wit := map[string]any{"A": S.Rows(), "type": t.Name, "opts": opts, "mask": maskString(o.Mask), "structure": structure}
 			fin := false
@@ -1385,4 +1397,15 @@ func Run(c *fw.Ctx) {
 			}
 		}
 	})
+}
+
+// sampleWorthy: write out only cases whose operand has at least three rows
+// (the evidence keeps the first two samples per case list).
+func sampleWorthy(v map[string]any) bool {
+	for _, k := range []string{"A", "R"} {
+		if rows, ok := v[k].([][]float64); ok {
+			return len(rows) >= 3
+		}
+	}
+	return true
 }
